@@ -10,6 +10,8 @@ pub const CLUSTERS: &[&str] = &[
     "\\", "\u{ff9e}", "a", ".", "\u{1f44d}\u{1f3fd}", "\u{1f3fd}", "e\u{301}", "\u{301}", "\u{200d}",
     "\u{1f1e9}", "\u{1f1ea}", "\u{1100}", "\u{1161}", "\u{11a8}", "\u{600}", "\u{ac00}", "\u{93f}", "\u{915}",
     "\u{1f468}", "x",
+    // Prepend characters of category Lo: they join the next character — also an ASCII one — into one cluster that grex keeps whole
+    "\u{d4e}", "\u{111c2}",
 ];
 pub const WS: &[&str] = &[
     "\t", "\n", "\u{b}", "\u{c}", "\r", " ", "\u{85}", "\u{a0}", "\u{1680}", "\u{2000}", "\u{2007}",
